@@ -7,6 +7,7 @@ from .. import nf, lib
 from ..selftest import Mutant, Benign
 from . import _c04_flow as fl
 from . import _c09_eval as mev
+from . import _validators as vd
 
 ID = 'C04'
 MF = 'mitxgraders/helpers/calc/mathfuncs.py'
@@ -1137,9 +1138,23 @@ def scope_names(fi, calls):
     return names
 
 
+def constant_sample_indices(fi):
+    """Subscripts `<samples parameter>[<int constant>]` in a gen_evaluations body: (node, parameter, index).  The lists have
+    config['samples'] entries and the schema admits samples = 1 (Positive(int); NumericalGrader pins 1, IntegralGrader
+    defaults to 1), so only the indices 0 and -1 exist for every configuration."""
+    out = []
+    for n in walk_own(fi.node):
+        if isinstance(n, ast.Subscript) and isinstance(n.value, ast.Name) and n.value.id in ('var_samples', 'func_samples') \
+                and n.value.id in fi.params:
+            k = nf.const_value(n.slice, None)
+            if isinstance(k, int) and not isinstance(k, bool):
+                out.append((n, n.value.id, k))
+    return out
+
+
 def d4_samples(ctx, idx):
     r = ctx.rule('D4.SAMPLES', "author and student are evaluated in the same iteration of one loop over range(config['samples']) "
-                 'on the same scope objects, the i-th sample loaded first, only deletions in between', floor=18)
+                 'on the same scope objects, the i-th sample loaded first, only deletions in between', floor=21)
     with r:
         for q in (FGC, IGC, SGC):
             fi = idx.func(q + '.gen_evaluations')
@@ -1248,6 +1263,18 @@ def d4_samples(ctx, idx):
                     else:
                         fl.absent(r, idx, name + ': sample %s' % target, 'the %s of the current iteration are never loaded into %s'
                                     % (want, target), lib.loc(fi, loop))
+            # constant indices into the sample lists must exist for a single-sample grader
+            consts = constant_sample_indices(fi)
+            bad = [(n, pn, k) for n, pn, k in consts if k not in (0, -1)]
+            if bad:
+                n, pn, k = bad[0]
+                r.violation(name + ': constant sample index', '`%s` needs at least %d samples, but samples = 1 is a valid configuration '
+                            '(NumericalGrader pins it, IntegralGrader defaults to it): such a grader raises IndexError for every '
+                            'submission (shown as the generic "could not check input" error) instead of grading it'
+                            % (short(n), k + 1 if k > 0 else -k), lib.loc(fi, n), expected='%s[0]' % pn, found=unparse(n))
+            else:
+                r.ok(name + ': constant sample index', '%d constant index(es) into the sample lists, all 0 / -1' % len(consts),
+                     lib.loc(fi, consts[0][0]) if consts else fi.loc)
             # the author's evaluation precedes the student's (needed for "only deletions in between" to make sense)
             if not cfg.reaches(a_nodes, s_nodes, blocked=[fl.loop_head(cfg, loop)], after=True):
                 r.undecided(name + ': order', 'the student\'s evaluation is not reachable from the author\'s within an iteration',
@@ -1779,23 +1806,21 @@ def _nonneg_positive(r, idx):
         for fn, pats, bad in (('NonNegative', ["All(_T, Range(0, float('inf')))", "All(_T, Range(min=0))", "All(_T, Range(0, None))"],
                                'negative'),):
             fi = idx.func('mitxgraders.helpers.validatorfuncs.' + fn)
-            ps = nf.decision_paths(fi.node.body)
-            if len(ps) != 1 or ps[0].leaf.kind != 'ret':
+            ps = vd.return_terms(fi.node)
+            if len(ps) != 1:
                 raise AnalysisError('%s: expected a single return' % fn)
-            res = nf.classify([p.replace('_T', fi.params[0]) for p in pats], ps[0].leaf.expr)
-            r.verdict(fn, res, lib.loc(fi, ps[0].leaf.stmt), ok_detail='All(type, Range(0, inf))', expected=pats[0])
+            res = nf.classify([p.replace('_T', fi.params[0]) for p in pats], ps[0][1])
+            r.verdict(fn, res, lib.loc(fi, ps[0][2]), ok_detail='All(type, Range(0, inf))', expected=pats[0])
         fi = idx.func('mitxgraders.helpers.validatorfuncs.Positive')
         got = {}
-        for p in nf.decision_paths(fi.node.body):
-            if p.leaf.kind != 'ret':
-                continue
+        for guards, term, stmt in vd.return_terms(fi.node):
             is_int = any(nf.match('%s == int' % fi.params[0], g) is not None or nf.match('%s is int' % fi.params[0], g) is not None
-                         for g in p.guards)
-            got['int' if is_int else 'other'] = p
+                         for g in guards)
+            got['int' if is_int else 'other'] = (term, stmt)
         if 'int' in got:
-            p = got['int']
-            res = nf.classify(["All(%s, Range(1, float('inf')))" % fi.params[0], "All(%s, Range(min=1))" % fi.params[0]], p.leaf.expr)
-            r.verdict('Positive(int)', res, lib.loc(fi, p.leaf.stmt), ok_detail='All(int, Range(1, inf))', expected='Range(1, inf)')
+            term, stmt = got['int']
+            res = nf.classify(["All(%s, Range(1, float('inf')))" % fi.params[0], "All(%s, Range(min=1))" % fi.params[0]], term)
+            r.verdict('Positive(int)', res, lib.loc(fi, stmt), ok_detail='All(int, Range(1, inf))', expected='Range(1, inf)')
         else:
             r.undecided('Positive(int)', 'integer branch not recognised', fi.loc)
 
@@ -1907,6 +1932,7 @@ MUTANTS = [
            "            for key in var_blacklist:\n                del varlist[key]\n            varlist.update(var_samples[(i + 1) % len(var_samples)])\n\n            student_eval, meta", 'D4'),
     Mutant('sample-loaded-after-author', FG, "            varlist.update(var_samples[i])\n\n            def scoped_eval(expression,", "            def scoped_eval(expression,", 'D4',
            note='varlist only refreshed in the debug branch'),
+    Mutant('sweep-second-sample-membership', FG, "            if var in var_samples[0]:", "            if var in var_samples[1]:", 'D4'),
     Mutant('always-first-sample', FG, "            funclist.update(func_samples[i])\n            varlist.update(var_samples[i])\n\n            def scoped_eval",
            "            funclist.update(func_samples[i])\n            varlist.update(var_samples[0])\n\n            def scoped_eval", 'D4'),
     Mutant('one-sample-fewer', FG, "        for i in range(self.config['samples']):\n            # Update the functions and variables listings with this sample\n            funclist.update(func_samples[i])\n            varlist.update(var_samples[i])\n\n            def scoped_eval",
@@ -1958,6 +1984,8 @@ BENIGN = [
     Benign('failable-zero-for-correlated-comparers', FG, "        consolidated = self.consolidate_results(results, answer, self.config['failable_evals'])",
            "        from mitxgraders.comparers import CorrelatedComparer\n        failable_evals = 0 if isinstance(comparer, CorrelatedComparer) else self.config['failable_evals']\n        consolidated = self.consolidate_results(results, answer, failable_evals)"),
     Benign('percentage-fstring', VF, "                return \"{percent}%\".format(percent=percent)", "                return f\"{percent}%\""),
+    Benign('positive-bounds-local', VF, "        return All(thetype, Range(1, float('inf')))\n    else:\n        return All(thetype, Range(0, float('inf')), NotIn([0]))\n",
+           "        bounds = [Range(1, float('inf'))]\n    else:\n        bounds = [Range(0, float('inf')), NotIn([0])]\n    return All(thetype, *bounds)\n"),
     Benign('tolerance-any-order', MH, "        Required('tolerance', default='0.01%'): Any(PercentageString, NonNegative(Number)),",
            "        Required('tolerance', default='0.01%'): Any(NonNegative(Number), PercentageString),"),
 ]
